@@ -210,11 +210,13 @@ def coq_bools(name, imports, exprs, defs='', shard=300, timeout=900, keep=False)
     return sorted(bad)
 
 
-def coq_codes(name, imports, exprs, defs='', shard=300, timeout=900):
+def coq_codes(name, imports, exprs, defs='', shard=None, timeout=900):
     """Evaluate closed Coq expressions of type N (0 = agree, 1 = disagree, 2 = model declines, ...).
     Returns {index: code} for the non-zero ones."""
     if not exprs:
         return {}
+    if shard is None:
+        shard = max(25, min(300, len(exprs) // (2 * NPROC) + 1))
     os.makedirs(CASES, exist_ok=True)
     jobs = []
     for k in range(0, len(exprs), shard):
